@@ -108,6 +108,7 @@ type c05SignReq struct {
 	key      [33]byte // untweaked key the signature is requested for
 	digest   [32]byte // musig: message signed
 	combined *btcec.PublicKey // musig: the session's (tweaked) aggregate key = taproot output key signed for
+	musigVer input.MuSig2Version // musig: protocol version of the session
 }
 
 type c05Signer struct {
@@ -119,6 +120,7 @@ type c05Signer struct {
 	// session -> local key / aggregate key
 	sessKey  map[[32]byte][33]byte
 	sessComb map[[32]byte]*btcec.PublicKey
+	sessVer  map[[32]byte]input.MuSig2Version
 
 	calls  int
 	failAt int
@@ -134,6 +136,7 @@ func newC05Signer(trace *[]string) *c05Signer {
 		byIdx:   map[uint32]*btcec.PrivateKey{},
 		sessKey:  map[[32]byte][33]byte{},
 		sessComb: map[[32]byte]*btcec.PublicKey{},
+		sessVer:  map[[32]byte]input.MuSig2Version{},
 		failAt:  -1,
 		trace:   trace,
 	}
@@ -251,6 +254,7 @@ func (s *c05Signer) MuSig2CreateSession(_ context.Context,
 		s.sessKey[info.SessionID] = c05Raw(p.PubKey())
 	}
 	s.sessComb[info.SessionID] = info.CombinedKey
+	s.sessVer[info.SessionID] = version
 	return info, nil
 }
 
@@ -272,6 +276,7 @@ func (s *c05Signer) MuSig2Sign(_ context.Context, id [32]byte, msg [32]byte,
 	}
 	s.log = append(s.log, c05SignReq{
 		kind: "musig", digest: msg, key: s.sessKey[id], combined: s.sessComb[id],
+		musigVer: s.sessVer[id],
 	})
 	b, err := input.SerializePartialSignature(ps)
 	if err != nil {
@@ -914,8 +919,15 @@ func (w *c05World) buildBatch(p *c05Prop) (*order.Batch, string, bool, error) {
 			OutpointIndex: -1,
 			NewVersion:    acct.Version,
 		}
-		if p.up == k && acct.Version == account.VersionInitialNoVersion {
-			diff.NewVersion = account.VersionTaprootEnabled
+		if p.up == k && acct.Version < account.VersionMuSig2V100RC2 {
+			// the auctioneer upgrades the account by one version in this
+			// batch: p2wsh -> taproot (MuSig2 v0.4), taproot v0.4 -> v1.0rc2
+			diff.NewVersion = acct.Version + 1
+			r := w.r
+			r.Count(fmt.Sprintf("prop/upgrade-v%d-to-v%d", acct.Version, diff.NewVersion))
+			if p.ext == k {
+				r.Count("prop/upgrade-with-expiry-change")
+			}
 		}
 		if p.ext == k {
 			// the auctioneer extends the account (a lease outliving it)
@@ -1877,7 +1889,16 @@ func (w *c05World) sigTokens(pending *order.Batch, sigs order.BatchSignature) st
 			}
 			if idx >= 0 {
 				tids[c05Tid(w, pending.BatchTX)] = true
-				rows = append(rows, row{k, fmt.Sprintf("%d:%d:t:%d:%s", k, idx, txscript.SigHashDefault, forOut)})
+				// account version whose protocol the session uses:
+				// MuSig2 v0.4.0 = account version 1, v1.0.0-rc2 = 2
+				sver := "?"
+				switch q.musigVer {
+				case input.MuSig2Version040:
+					sver = "1"
+				case input.MuSig2Version100RC2:
+					sver = "2"
+				}
+				rows = append(rows, row{k, fmt.Sprintf("%d:%d:t:%d:%s:v%s", k, idx, txscript.SigHashDefault, forOut, sver)})
 			} else {
 				rows = append(rows, row{k, fmt.Sprintf("%d:x:t:?", k)})
 			}
@@ -2130,12 +2151,15 @@ func c05Gen(r *Run) *c05Case {
 				node = 1 // node 1 is acceptable to every order
 			}
 			up := 0
-			if r.Rng.Intn(4) == 0 {
+			if r.Rng.Intn(3) == 0 {
 				up = accts[r.Rng.Intn(len(accts))]
 			}
 			ext := 0
 			if r.Rng.Intn(3) == 0 {
 				ext = accts[r.Rng.Intn(len(accts))]
+				if up != 0 && r.Rng.Intn(2) == 0 {
+					ext = up // upgrade and expiry change on the same account
+				}
 			}
 			extd := 1000
 			if r.Rng.Intn(3) == 0 {
